@@ -47,15 +47,15 @@ func (r *routerAbs) fullPattern(p string) string {
 }
 
 type endpoint struct {
-	Method  string
-	Pattern string
-	Handler string // access path / function name of the handler
-	HandlerV ssa.Value
-	Guards  []string // conditions the registration is control-dependent on
-	Stack   []mwLabel
-	Pos     string
-	In      ssa.Instruction
-	Fn      *ssa.Function
+	Method        string
+	Pattern       string
+	Handler       string // access path / function name of the handler
+	HandlerV      ssa.Value
+	Guards        []string // conditions the registration is control-dependent on
+	Stack         []mwLabel
+	Pos           string
+	In            ssa.Instruction
+	Fn            *ssa.Function
 	UseAfterRoute bool
 }
 
